@@ -325,7 +325,9 @@ func (c *Channel) proposeNewSession(sid [32]byte, newS *Session) (ret *Session) 
 func (c *Channel) onReadySession(now time.Time) error {
 	se := c.sessions[2]
 	sessRemote := se.Session.RemoteKey()
-	if !c.remoteKey.IsZero() && !x509.EqualPublicKeys(&c.remoteKey, &sessRemote) {
+	// checkKey compares against the established remote key, or consults AcceptKey if there is none yet.
+	// The responder path has already done this in newResp; the initiator only learns the key from RespHello.
+	if err := c.checkKey(&sessRemote); err != nil {
 		c.setNext(sessionEntry{})
 		return errors.New("session negotiated with wrong peer")
 	}
